@@ -144,11 +144,11 @@ let maxp_of_sx = function
 let sx_of_maxp (n, ttf) = L [an n; aopt abn ttf]
 
 let tables_of_sx = function
-  | L [A "tables"; cff; hd; hm; mx; o2; cm; nm; po; ci; ol; gdef; gsub; gpos] ->
+  | L [A "tables"; cff; hd; hm; mx; o2; cm; nm; po; ci; ol; gdef; gsub; gpos; kern] ->
     { t_cff = sx_bool cff; t_hd = opt head_of_sx hd; t_hm = opt hmtx_of_sx hm; t_maxp = opt maxp_of_sx mx;
       t_o2 = opt os2_of_sx o2; t_cm = opt cmap_of_sx cm; t_nm = opt names_of_sx nm; t_po = opt post_of_sx po;
       t_ci = opt cffinfo_of_sx ci; t_ol = outl_of_sx ol; t_gdef = opt bn gdef; t_gsub = opt bn gsub;
-      t_gpos = opt bn gpos }
+      t_gpos = opt bn gpos; t_kern = opt bn kern }
   | _ -> failwith "bad tables"
 
 (* tables as observed from a written file: the name slot shows the table
@@ -162,7 +162,7 @@ let sx_of_tables_obs (t : tables) : sx =
   L [A "tables"; ab t.t_cff; aopt sx_of_head t.t_hd; aopt sx_of_hmtx_obs t.t_hm; aopt sx_of_maxp t.t_maxp;
      aopt sx_of_os2 t.t_o2; aopt sx_of_cmap t.t_cm; aopt sx_of_name (choose_name t.t_nm);
      aopt sx_of_post t.t_po; aopt sx_of_cffinfo_obs t.t_ci; sx_of_outl t.t_ol;
-     aopt abn t.t_gdef; aopt abn t.t_gsub; aopt abn t.t_gpos]
+     aopt abn t.t_gdef; aopt abn t.t_gsub; aopt abn t.t_gpos; aopt abn t.t_kern]
 
 let rec last = function [x] -> x | _ :: l -> last l | [] -> failwith "empty case"
 
